@@ -12,7 +12,7 @@ from pycaption import DFXPReader, MicroDVDReader, SAMIReader, SRTReader, WebVTTR
 PROPERTY = "C01"
 RULE = ("documents are built by independent serialisers from generated timestamp spellings "
         "(fields, not instants), lines ended by LF, CRLF or bare CR: SRT HH+:MM:SS[,mmm]; WebVTT [HH+:]MM:SS.mmm with ids, "
-        "settings, NOTE blocks, empty cues and reader options (time shift of either sign, "
+        "settings, NOTE blocks, empty cues and reader options (time shift of either sign - also one that moves cues before zero: none may be lost -, "
         "ignore_timing_errors, lang); DFXP clock time with 0-9 fraction digits or :FF frames, "
         "offset times n[.d](h|m|s|ms|f), begin+end and begin+dur, empty <p>, 1-2 divs; SAMI "
         "syncs in 1-3 languages with ends given by blank P or the next cue, quoted/unquoted, "
@@ -123,8 +123,12 @@ def webvtt_strategy(tier):
                                                             "align:center line:0"])),
                          "empty": draw(st.integers(0, 7)) == 0, "nl": draw(st.integers(1, 2))})
         min_ms = int(min(T.value(c["a"]) for c in cues) // 1000)
+        max_ms = int(max(T.value(c["b"]) for c in cues) // 1000)
         shift = draw(st.one_of(st.just(0), st.just(0), st.integers(-min_ms, 10 ** 7),
-                               st.sampled_from([1, -1, 999, 1000, -1000, 3600000]).filter(lambda x: x >= -min_ms)))
+                               st.sampled_from([1, -1, 999, 1000, -1000, 3600000]).filter(lambda x: x >= -min_ms),
+                               # a shift that moves some (or all) cues before zero: no cue may get
+                               # lost; the shifted instant (or 0) is accepted for such cues
+                               st.integers(-max_ms - 1, -min_ms), st.sampled_from([-1, -1000, -3600000])))
         notes = {}
         if draw(st.booleans()):
             notes[draw(st.integers(0, n - 1))] = "a comment"
@@ -160,7 +164,9 @@ def check_webvtt(case, rec):
     kw = {}
     if case["shift"]:
         kw["time_shift_milliseconds"] = case["shift"]
-    if not case["ignore"]:
+    below_zero = min(min(T.acceptable(c["a"])) for c in case["cues"]) + case["shift"] * 1000 < 0
+    if not case["ignore"] and not below_zero:
+        # (a strict reader may reject instants before zero; they are read leniently)
         kw["ignore_timing_errors"] = False
     with must("WebVTTReader.read"):
         r = _reader(WebVTTReader, "webvtt", case, rec, **kw)
@@ -168,8 +174,13 @@ def check_webvtt(case, rec):
     lang = case["lang"] or "en-US"
     require(cs.get_languages() == [lang], lambda: f"languages {cs.get_languages()}")
     sh = case["shift"] * 1000
-    exp = [({v + sh for v in T.acceptable(c["a"])}, {v + sh for v in T.acceptable(c["b"])})
+    def shifted(vals):
+        out = {v + sh for v in vals}
+        return out | {0} if any(v < 0 for v in out) else out
+    exp = [(shifted(T.acceptable(c["a"])), shifted(T.acceptable(c["b"])))
            for c in case["cues"] if not c["empty"]]
+    if any(v < 0 for ea, _ in exp for v in ea):
+        rec.label("webvtt-shift-below-zero")
     if not exp:
         return
     _compare(cs.get_captions(lang), exp, "webvtt", doc)
